@@ -7,7 +7,7 @@
 //! silent hops, losses, failed sends, several responders per hop) are applied to a real `Tracer` built by the real
 //! `Builder`; every generator is run on it with standard output redirected to a scratch file, and its rows are compared
 //! with `State::hops()` (which C10's theorems and the `agg` component are about) and with what was probed.
-//! Oracles: `c10-report-rows`, `c10-report-fails`, `c05-report-stats` (same hops, other addresses or counts: not the
+//! Oracles: `c19-report-nat` (the JSON report's `nat` field), `c10-report-rows`, `c10-report-fails`, `c05-report-stats` (same hops, other addresses or counts: not the
 //! statistics of all published rounds).  No model is involved (one `conc noop` request).
 use crate::agg::{gen_net, net_round, TARGET};
 use crate::strategy::addr_of;
@@ -165,6 +165,19 @@ fn case(run: &mut Run, rng: &mut Rng, dns: &DnsResolver) {
             }
         }
         run.count("report:rows-compared");
+        // C19 in the JSON report: `nat` is null / false / true as the hop's status is not applicable / not detected / detected
+        if kind == "json" {
+            let shown: Vec<String> = text.split("\"ttl\":").skip(1).map(|seg| {
+                seg.find("\"nat\":").map_or(String::from("?"), |i| seg[i + 6..].trim_start().chars().take_while(char::is_ascii_alphabetic).collect())
+            }).collect();
+            let expect: Vec<String> = st.hops().iter().map(|h| match h.last_nat_status() {
+                trippy_core::NatStatus::NotApplicable => "null", trippy_core::NatStatus::NotDetected => "false", trippy_core::NatStatus::Detected => "true",
+            }.to_string()).collect();
+            if shown != expect {
+                run.fail("c19-report-nat", format!("json report, {ctx}: nat fields {shown:?}, hop statuses {expect:?}"));
+            }
+            for e in &expect { run.count(&format!("report:nat-{e}")); }
+        }
         if !got.is_empty() { run.count("report:nonempty"); }
         if got.iter().any(|r| r.ips.len() > 1) { run.count("report:several-addresses-in-a-row"); }
         if got.first().is_some_and(|r| r.ttl != "1") { run.count("report:first-row-above-ttl-1"); }
